@@ -19,6 +19,7 @@ func init() {
 		Assumptions: []string{"proto.Equal is value equality of messages and false for (nil, non-nil)", "proto.Clone returns a deep copy", "locks identified by access path"},
 		Run:         runC02,
 		Controls: []Control{
+			{Name: "hail-gc-deletes-unconditionally", File: "pkg/trait/hailpb/model.go", Old: "resource.WithAllowMissing(true), resource.WithExpectedValue(hail))", New: "resource.WithAllowMissing(true))", Expect: "R02.10"},
 			{Name: "reread-returns-remembered-message-with-error", File: "pkg/resource/collection.go", Old: "\t\t\t\tif _, exists := c.byId[id]; exists {\n\t\t\t\t\treturn nil, ExpectAbsentPreconditionFailed\n", New: "\t\t\t\tif _, exists := c.byId[id]; exists {\n\t\t\t\t\treturn created, ExpectAbsentPreconditionFailed\n", Expect: "R02.8"},
 			{Name: "value-set-retries", File: "pkg/resource/value.go", Old: "\t_, newValue, err := GetAndUpdate(", New: "\tvar newValue proto.Message\n\tvar err error\n\tfor attempt := 0; attempt < 3 && (attempt == 0 || err != nil); attempt++ {\n\t_, newValue, err = GetAndUpdate(", More: []Edit{{File: "pkg/resource/value.go", Old: "\t\t\tr.changeTime = changeTime\n\t\t},\n\t)\n", New: "\t\t\tr.changeTime = changeTime\n\t\t},\n\t)\n\t}\n"}}, Expect: "R02.7"},
 			{Name: "drop-equal-guard", File: "pkg/resource/atomic.go", Old: "if !proto.Equal(oldValue, oldValueAgain) {", New: "if false && !proto.Equal(oldValue, oldValueAgain) {", Expect: "R02.1"},
@@ -87,6 +88,8 @@ func runC02(c *an.Ctx) {
 	// write callbacks run before the write lock is taken, on the message that is stored: one that edits `old` in place
 	// (instead of a copy) has changed the stored value before the attempt is decided, so a write that then loses the race
 	// and reports Aborted has left its edits behind (E2, shared with R07.1, restricted to interceptor-shaped functions)
+	r0210(c, "R02.10")
+	c.Min("R02.10", 1)
 	runE2(c, "R02.9", isWriteCallback)
 	c.Min("R02.9", 5)
 	c.Min("R02.6", 2)
@@ -811,4 +814,99 @@ func isWriteCallback(fn *ssa.Function) bool {
 		}
 	}
 	return false
+}
+
+// r0210: a write decided on a snapshot carries the snapshot as its precondition. A function that reads items out of
+// a collection (List / Get), looks at one of them and then deletes or updates THAT item (the id handed to the write
+// is a field of the message that was read) has a window between the read and the write; another writer's
+// successful update in that window must not be undone. The write carries resource.WithExpectedValue /
+// WithExpectedCheck (hail's gc: an expired hail that was renewed meanwhile is not deleted).
+func r0210(c *an.Ctx, rule string) {
+	n := 0
+	for _, fn := range c.Prog.FuncsIn("pkg/trait") {
+		if c.Prog.IsGenerated(fn.Pos()) || strings.HasSuffix(c.Prog.RelFile(fn.Pos()), "_test.go") {
+			continue
+		}
+		ord := 0
+		an.Instrs(fn, func(in ssa.Instruction) {
+			call, ok := in.(*ssa.Call)
+			if !ok {
+				return
+			}
+			cn := an.CalleeName(call)
+			if !strings.HasSuffix(cn, "pkg/resource.Collection).Delete") && !strings.HasSuffix(cn, "pkg/resource.Collection).Update") {
+				return
+			}
+			if len(call.Call.Args) < 2 {
+				return
+			}
+			// the id is a field of a message read from a collection in this function
+			fromRead := false
+			for _, s := range an.Sources(call.Call.Args[1]) {
+				u, isU := s.(*ssa.UnOp)
+				if !isU {
+					continue
+				}
+				fa, isFA := u.X.(*ssa.FieldAddr)
+				if !isFA {
+					continue
+				}
+				for _, rc := range readOrigins(fa.X, 0) {
+					if (strings.HasSuffix(an.CalleeName(rc), "pkg/resource.Collection).List") || strings.HasSuffix(an.CalleeName(rc), "pkg/resource.Collection).Get")) && rc.Parent() == fn {
+						fromRead = true
+					}
+				}
+			}
+			if !fromRead {
+				return
+			}
+			ord++
+			n++
+			conditional := false
+			for _, e := range variadicElems(call.Call.Args[len(call.Call.Args)-1]) {
+				for _, s := range an.Sources(e) {
+					if oc, isC := s.(*ssa.Call); isC {
+						on := an.CalleeName(oc)
+						if strings.HasSuffix(on, "pkg/resource.WithExpectedValue") || strings.HasSuffix(on, "pkg/resource.WithExpectedCheck") {
+							conditional = true
+						}
+					}
+				}
+			}
+			c.SawFunc(an.FuncName(fn))
+			c.Check(conditional, rule, fmt.Sprintf("%s|write #%d on an item read earlier is conditional on what was read", an.FuncName(fn), ord), call.Pos(), "carries WithExpectedValue / WithExpectedCheck",
+				"the function reads an item, decides on it and then writes that item without a precondition: a successful write by someone else between the read and this write is silently undone")
+		})
+	}
+	c.Count("read_then_write_sites", n)
+}
+
+// readOrigins: the calls a message value was obtained from, looking through type assertions, tuple extraction and the
+// element loads of a range over a slice.
+func readOrigins(v ssa.Value, depth int) []*ssa.Call {
+	if depth > 8 {
+		return nil
+	}
+	var out []*ssa.Call
+	for _, s := range an.Sources(v) {
+		switch x := s.(type) {
+		case *ssa.Call:
+			out = append(out, x)
+		case *ssa.Extract:
+			if c, ok := x.Tuple.(*ssa.Call); ok {
+				out = append(out, c)
+			} else {
+				out = append(out, readOrigins(x.Tuple, depth+1)...)
+			}
+		case *ssa.TypeAssert:
+			out = append(out, readOrigins(x.X, depth+1)...)
+		case *ssa.UnOp:
+			if ia, ok := x.X.(*ssa.IndexAddr); ok {
+				out = append(out, readOrigins(ia.X, depth+1)...)
+			}
+		case *ssa.Index:
+			out = append(out, readOrigins(x.X, depth+1)...)
+		}
+	}
+	return out
 }
